@@ -8,7 +8,8 @@ from cli_args import cli_argv
 
 E_NORESULT, E_TIMEOUT, E_DEP = 0, 1, 2
 EXC_NAMES = {0: "NoResultError", 1: "TimeoutError", 2: "LookupError", 3: "ValueError", 4: "CustomError",
-             5: "KeyboardInterrupt", 6: "SystemExit", 7: "CancelledError", 8: "GeneratorExit"}
+             5: "KeyboardInterrupt", 6: "SystemExit", 7: "CancelledError", 8: "GeneratorExit", 9: "ExceptionGroup",
+             10: "BaseExceptionGroup"}
 HOOK_COQ = {"pre_send": "HPreSend", "post_send": "HPostSend", "pre_execute": "HPreExec", "on_error": "HOnError",
             "post_execute": "HPostExec", "post_save": "HPostSave"}
 HOOKS_MSG = ("pre_send", "pre_execute")
@@ -143,11 +144,30 @@ def tid(s):
 UNMATCHABLE = "(FSent 4999)"      # an effect no model sequence contains
 
 
-def c_eff(ev, lt, cx=None):
+def falsy_exc(M):
+    """identifier of the class of the FALSY exception object (__bool__ False / __len__ 0) the body of message M raises, else
+    None.  TaskiqResult's `error` validator (exception_to_python: `if not exc: return None`) turns such an object into
+    error=None, so the assembled result is (is_err=True, error=None): the model has no truth value of exception objects and
+    says error = the raised class.  C07 here demands only is_err for these objects (C19 owns what the error field
+    carries): an observed (is_err true, error None) of such a message is printed with the raised class."""
+    if M.get("dep") == "fail":           # the dependency fails (a LookupError, possibly of a derived class): the body never runs
+        return E_DEP if (M.get("dep_x") or {}).get("truth") else None
+    o = M.get("out") or {}
+    if (o.get("x") or {}).get("truth"):
+        return o["raise"]
+    return None
+
+
+def c_eff(ev, lt, cx=None, fx=None):
     """one log entry (without its `who`) -> Coq eff literal, or None for entries that are not model effects.
     cx (send side): the broker / stack the send must go through - hook indices are logged as 100 * broker + position,
-    the model numbers the positions of that one stack"""
+    the model numbers the positions of that one stack.  fx (receive side): see falsy_exc"""
     k = ev[0]
+    if fx is not None:
+        if k == "hook" and ev[1] in HOOKS_RES and ev[5] is True and ev[7] is None:
+            ev = ev[:7] + [fx] + ev[8:]
+        elif k == "save.enter" and ev[2] is True and ev[4] is None:
+            ev = ev[:4] + [fx] + ev[5:]
     if cx is not None:
         if k == "hook":
             if ev[2] // 100 != cx["b"]:
@@ -255,8 +275,9 @@ def c_case(case, obs):
     per, glob, late, stray = split_log(case, obs["log"])
     g = []
     cxs = send_ctx(case) if case["type"] == "send" else None
+    fxs = [falsy_exc(M) for M in case["msgs"]] if case["type"] == "recv" else None
     for w, ev in abstract_d10(case, per, glob):
-        t = c_eff(ev, lt, cxs[w] if cxs else None)
+        t = c_eff(ev, lt, cxs[w] if cxs else None, fxs[w] if fxs else None)
         if t is not None:
             g.append("(%s, %s)" % (C.cn(w), t))
     for e in stray:   # an event nobody owns: make the run unmatchable
@@ -561,6 +582,9 @@ def oracle_c07(case, per, late, fail):
             continue
         s = saves[0]
         got = (s[2], s[3], s[4])
+        fx = falsy_exc(M)
+        if fx is not None and fx != E_NORESULT and got == (True, None, None) and (True, None, fx) in want:
+            got = (True, None, fx)        # a falsy exception object: only is_err is demanded (see falsy_exc)
         if s[1] != eff_id:
             fail("result stored under another task id", sig, evs)
         elif got not in want:
@@ -1076,7 +1100,136 @@ def gen_recv(r, focus="c02", allow_d10=True):
             else:
                 break
     del lt_dummy
+    gen_exotic(r, case)
     return case
+
+
+EXC_P = 0.10       # fraction of the raising task bodies whose exception is not a plain instance of a class of the table
+LOG_P = 0.04       # fraction of the other receive cases run with logging configured (half of the cases with such a body)
+X_ARGS = ["empty", "unpicklable", "unpicklable", "unjsonable", "unjsonable", "huge", "nested"]
+
+
+def gen_xclass(r, b, group=False):
+    """class part of an exception description (driver: exc_class); b = identifier of the table class it derives from"""
+    kinds = [None, "sub", "eq", "eq", "eq", "dataclass", "dataclass", "init"]
+    if b == 0:
+        kinds = [None, "sub", "eq", "eq"]       # NoResultError is an izulu template error: no dataclass / own __init__
+    if group:
+        kinds = [None, None, "sub", "eq"]
+    kind = r.choice(kinds)
+    x = {}
+    if kind is None:
+        return x
+    x["cls"] = kind
+    if kind == "eq":
+        x.update(eq=r.choice(["value", "value", "always", "never", "raises"]),
+                 hash=r.choice(["none", "none", "value", "id", "raises"]), key=r.choice([0, 0, 1]))
+    elif kind == "dataclass":
+        x["hash"] = r.choice(["none", "none", "none", "value", "raises", "id"])
+    elif r.random() < .25:
+        x["hash"] = r.choice(["none", "raises"])
+    if r.random() < .15:
+        x["truth"] = r.choice(["bool", "len"])
+    if r.random() < .15:
+        x["str"] = r.choice(["str", "repr", "both"])
+    if b != 0 and not group and kind != "init" and r.random() < .3:
+        x["args"] = r.choice(X_ARGS)
+    if r.random() < .1:
+        x["attr"] = "unpicklable"
+    return x
+
+
+def falsy_allowed(case, M, b):
+    """a falsy exception as the task's OWN exception is generated only where nothing but `is_err` depends on its truth
+    value: not for the no-result signal (a falsy NoResultError loses its class in the result: reported, proposed finding)
+    and not where a dependency is to see it (`if found_exception and self.propagate_exceptions`: C12's subject)"""
+    return b != 0 and not (M["dep"] == "ok" and case["propagate"])
+
+
+def gen_xspec(r, b, group_ok, falsy_ok):
+    """what a task body (a failing dependency) raises instead of EXC[b](): returns (id, x) - see exc_instance in the driver"""
+    x = {}
+    if group_ok and r.random() < .12:
+        # an exception GROUP (Python 3.11: TaskGroup / anyio task groups raise them): ExceptionGroup is an Exception,
+        # BaseExceptionGroup (some member is not an Exception) is not
+        base = r.random() < .4
+        mem = [r.choice([5, 6, 7, 8])] if base else []
+        mem += [r.choice([0, 1, 2, 3, 3, 4]) for _ in range(r.choice([1, 1, 2, 3]) - len(mem))] or [3]
+        r.shuffle(mem)
+        b = 10 if base else 9
+        x["group"] = [dict({"raise": m}, **({"x": gx} if gx else {})) for m in mem
+                      for gx in [gen_xclass(r, m) if r.random() < .4 else {}]]
+        x.update(gen_xclass(r, b, group=True))
+    else:
+        x.update(gen_xclass(r, b))
+    if x.get("truth") and not falsy_ok:
+        del x["truth"]
+    if r.random() < .45 or not x:
+        chain = []
+        for _ in range(r.choice([1, 1, 1, 2, 3])):
+            lb = r.choice([0, 1, 2, 3, 3, 3, 4, 4, 5, 7])
+            ln = {"via": r.choice(["cause", "context", "context"]), "raise": lb}
+            lx = gen_xclass(r, lb) if r.random() < .6 else {}
+            if lx:
+                ln["x"] = lx
+            chain.append(ln)
+        x["chain"] = chain
+    if r.random() < .15:
+        x["cycle"] = r.choice(["context", "cause"])
+    if r.random() < .12:
+        x["suppress"] = r.random() < .5
+    if r.random() < .12:
+        x["shared"] = True
+    return b, x
+
+
+def unhashable_spec(x):
+    return bool(x) and bool(x.get("cls")) and x.get("hash") in ("none", "raises")
+
+
+def xspec_members(x):
+    """[(role, description)] of every exception object of one description: head, chain links, group members"""
+    out = [("head", x)]
+    for ln in x.get("chain") or []:
+        out.append(("link", ln.get("x") or {}))
+    for m in x.get("group") or []:
+        out.append(("member", m.get("x") or {}))
+    return out
+
+
+def gen_exotic(r, case):
+    """widen WHAT a task body raises (the exception table fixes nine classes, raised as `Cls()`): an instance of a derived
+    class with special methods of its own (__eq__, __hash__ = None, @dataclass, __bool__ / __len__, raising __str__ /
+    __repr__, own __init__), with unusual args / attributes, an exception group, an exception with a __cause__ /
+    __context__ chain (possibly cyclic, possibly holding such objects), one object raised by several messages.  For the
+    pipeline the outcome is unchanged: "raised an EXC[id]" - M["out"]["raise"] stays the identifier the model sees."""
+    first = None
+    for M in case["msgs"]:
+        if M["kind"] != "ok" or "raise" not in M["out"] or r.random() >= EXC_P:
+            continue
+        if M["style"] == "sync" and M["out"]["raise"] == 8:
+            continue                         # finding D10 is keyed on exactly {"raise": 8}
+        if first is not None and r.random() < .35 and not (M["style"] == "sync" and first["raise"] == 8) and \
+                (not first["x"].get("truth") or falsy_allowed(case, M, first["raise"])):
+            # the same description as an earlier message: the same class, and (shared, mostly) the very same object
+            if r.random() < .7:
+                first["x"]["shared"] = True
+            M["out"] = json.loads(json.dumps(first))
+            if not first["x"].get("shared"):
+                M["out"]["x"].pop("shared", None)
+            continue
+        b, x = gen_xspec(r, M["out"]["raise"], True, falsy_allowed(case, M, M["out"]["raise"]))
+        M["out"] = {"raise": b, "x": x}
+        if first is None:
+            first = M["out"]
+    for M in case["msgs"]:
+        # the exception of a FAILING DEPENDENCY (a LookupError for the model): the same widening; it reaches nothing but
+        # the result, so a falsy one is fine here
+        if M["kind"] == "ok" and M["dep"] == "fail" and r.random() < EXC_P:
+            M["dep_x"] = gen_xspec(r, E_DEP, False, True)[1]
+    exo = any((M.get("out") or {}).get("x") or M.get("dep_x") for M in case["msgs"])
+    if r.random() < (.5 if exo else LOG_P):
+        case["logging"] = True
 
 
 WALL_BASES = [0.0, 1.0, 1.7e9, 1.7e9, 1.7e9, 1758000000.25, 2147483647.0, 4294967296.0, -86400.0]
@@ -1288,9 +1441,64 @@ def count_wall(rep, M, evs):
                           ("negative" if float.fromhex(e[6]) < 0 else "non-negative"))
 
 
+def count_exotic(rep, case, M, evs, x, src):
+    """what kind of exception OBJECT the body (src = "") or the failing dependency raises, and whether it reached the
+    receiver / a result was stored for it"""
+    if not x:
+        rep.count("raised-object:%splain(table class)" % src)
+        return
+    rep.count("raised-object:%sexotic" % src)
+    raised = any(e[0] == "body.end" and e[1] == "raise" for e in evs) if not src else any(e[0] == "dep.open" for e in evs)
+    if raised:
+        rep.count("raised-object:exotic:reached-the-receiver")
+        if any(e[0] == "save.enter" and e[2] is True for e in evs):
+            rep.count("raised-object:exotic:result-stored(is_err)")
+        if any(e[0] == "save.enter" and e[2] is True and e[4] is None for e in evs):
+            rep.count("raised-object:exotic:result-stored-with-empty-error(falsy exception)")
+        if case.get("logging"):
+            rep.count("raised-object:exotic:reached-the-receiver:logging-configured")
+    if x.get("group") is not None:
+        rep.count("raised-object:group:%s,%d-members" % ("BaseExceptionGroup" if M["out"]["raise"] == 10 else "ExceptionGroup",
+                                                        len(x["group"])))
+        if any(m["raise"] == 0 for m in x["group"]):
+            rep.count("raised-object:group:has-NoResultError-member(not the no-result signal)")
+    if x.get("chain"):
+        rep.count("raised-object:chain:length-%d" % len(x["chain"]))
+        for ln in x["chain"]:
+            rep.count("raised-object:chain:via-" + ln["via"])
+    if x.get("cycle"):
+        rep.count("raised-object:chain:cyclic(%s)" % ("self-reference" if not x.get("chain") else "back-to-head"))
+    if x.get("suppress") is not None:
+        rep.count("raised-object:explicit-__suppress_context__")
+    if x.get("shared"):
+        n = sum(1 for M2 in case["msgs"] if not src and M2.get("out") == M["out"])
+        rep.count("raised-object:one-instance-%s" % ("raised-by-several-messages" if n > 1 else "per-case"))
+    for role, d in xspec_members(x):
+        if not d:
+            rep.count("raised-object:%s:plain" % role)
+            continue
+        rep.count("raised-object:%s:class:%s" % (role, d.get("cls") or "table-class"))
+        if d.get("eq"):
+            rep.count("raised-object:%s:__eq__:%s" % (role, d["eq"]))
+        if d.get("cls"):
+            rep.count("raised-object:%s:hash:%s" % (role, {"none": "unhashable(__hash__=None)", "raises": "unhashable(hash raises)"}
+                                                    .get(d.get("hash", "id"), d.get("hash", "id"))))
+        if d.get("truth"):
+            rep.count("raised-object:%s:falsy(%s)" % (role, "__bool__" if d["truth"] == "bool" else "__len__"))
+        if d.get("str"):
+            rep.count("raised-object:%s:raising-%s" % (role, {"str": "__str__", "repr": "__repr__", "both": "__str__+__repr__"}[d["str"]]))
+        if d.get("args"):
+            rep.count("raised-object:%s:args:%s" % (role, d["args"]))
+        if d.get("attr"):
+            rep.count("raised-object:%s:attribute:unpicklable" % role)
+    if any(unhashable_spec(d) for _, d in xspec_members(x)):
+        rep.count("raised-object:some-exception-of-the-chain-is-unhashable" + (":reached-the-receiver" if raised else ""))
+
+
 def count_recv(rep, case, per, late):
     at = case.get("ack_type") or "default(when_saved)"
     rep.count("messages:%d" % len(case["msgs"]))
+    rep.count("logging:" + ("configured(records formatted)" if case.get("logging") else "disabled"))
     rep.count("config:via-command-line" if case.get("cli") is not None else "config:direct")
     if len({M["id"] for M in case["msgs"]}) < len(case["msgs"]):
         rep.count("redelivery(same task id, concurrent)")
@@ -1328,6 +1536,10 @@ def count_recv(rep, case, per, late):
         rep.count("dep:" + M["dep"])
         o = M["out"]
         rep.count("body:" + ("return" if "ret" in o else EXC_NAMES[o["raise"]]))
+        if M["dep"] == "fail":
+            count_exotic(rep, case, M, evs, M.get("dep_x"), "failing-dependency:")
+        elif "raise" in o:
+            count_exotic(rep, case, M, evs, o.get("x"), "")
         names = {e[0] for e in evs}
         rep.count("branch:" + ("crash:" + [e for e in evs if e[0] == "crash"][0][1] if "crash" in names else "done"))
         if "save.raise" in names:
@@ -1367,6 +1579,17 @@ def is_d10(case, sig):
     return M["style"] == "sync" and M["out"] == {"raise": 8}
 
 
+FALSY_NORES_SIG = "falsy_no_result_signal"      # proposed finding, corpus/C07/proposed/ (never generated; see falsy_allowed)
+
+
+def is_falsy_nores(case, sig):
+    i = sig.get("msg")
+    if case.get("type") != "recv" or i is None:
+        return False
+    M = case["msgs"][i]
+    return M.get("dep") != "fail" and falsy_exc(M) == E_NORESULT
+
+
 class Failer:
     """routes oracle failures to the report; failures inside the D10 region carry the signature flag `d10`
     (predicate of the known finding sync_generator_exit: task style == sync and the body raises GeneratorExit)"""
@@ -1376,11 +1599,12 @@ class Failer:
 
     def __call__(self, what, sig, evs):
         self.rep.fail("%s: %s" % (self.pid, what), self.case, observed=evs, expected="see the property statement",
-                      sig=dict(sig, d10=is_d10(self.case, sig)))
+                      sig=dict(sig, d10=is_d10(self.case, sig), falsy_nores=is_falsy_nores(self.case, sig)))
 
 
 def finish(rep, pid):
-    return rep.finish({D10_SIG: lambda f: bool(f["sig"].get("d10"))}, {})
+    return rep.finish({D10_SIG: lambda f: bool(f["sig"].get("d10")),
+                       FALSY_NORES_SIG: lambda f: bool(f["sig"].get("falsy_nores"))}, {})
 
 
 # ------------------------------------------------------------------------------------- shared run skeleton
